@@ -94,12 +94,109 @@ def ensure_template():
     _template_loaded = True
 
 
+RANDOM_POLICY = "vrandom"
+_random_policy_loaded = False
+
+
+def ensure_random_policy():
+    """A seeded random *admissible* in-process policy (uses only the public scheduler API): schedules
+    that no shipped policy produces - partial packings, arbitrary sizes and pools, retries of failed
+    operators, suspensions whenever a container sits at an operator boundary."""
+    global _random_policy_loaded
+    if _random_policy_loaded:
+        return
+    import random
+    from eudoxia.executor.assignment import Assignment, Suspend
+    from eudoxia.workload.runtime_status import ASSIGNABLE_STATES
+
+    @register_scheduler_init(key=RANDOM_POLICY)
+    def _init(s):
+        s.vr_rng = random.Random(s.params.get("vrandom_seed", 0))
+        s.vr_open = []
+        s.vr_psus = s.params.get("vrandom_p_suspend", 0.3)
+
+    @register_scheduler(key=RANDOM_POLICY)
+    def _round(s, results, pipelines):
+        rng = s.vr_rng
+        s.vr_open.extend(pipelines)
+        if len(s.vr_open) > 40:
+            s.vr_open = [p for p in s.vr_open if not p.runtime_status().is_pipeline_successful()]
+        multi = bool(s.params.get("multi_operator_containers", True))
+        overcommit = bool(s.params.get("allow_memory_overcommit", False))
+        sus = []
+        for pool in s.executor.pools:
+            for c in pool.active_containers:
+                if c.can_suspend_container() and rng.random() < s.vr_psus:
+                    sus.append(Suspend(c.container_id, pool.pool_id))
+        asg = []
+        if not (results or pipelines or rng.random() < 0.3):
+            return sus, asg
+        taken = set()
+        for pool in s.executor.pools:
+            fc, fr = pool.avail_cpu_pool, pool.avail_ram_pool
+            for _ in range(rng.choice([0, 1, 1, 2, 3])):
+                if fc < 1 or (fr <= 1e-6 and not overcommit):
+                    break
+                cands = [p for p in s.vr_open if id(p) not in taken]
+                rng.shuffle(cands)
+                pick = None
+                for p in cands[:12]:
+                    rs = p.runtime_status()
+                    ready = rs.get_ops(ASSIGNABLE_STATES, require_parents_complete=True)
+                    if not ready:
+                        continue
+                    if multi and rng.random() < 0.6:
+                        allops = rs.get_ops(ASSIGNABLE_STATES, require_parents_complete=False)
+                        # dependency-closed run in listing order
+                        chosen, have = [], set()
+                        for op in allops:
+                            if all((q in have) or q.state().value == "completed" for q in op.parents):
+                                chosen.append(op)
+                                have.add(op)
+                        ops = chosen[:rng.randint(1, max(1, len(chosen)))]
+                    else:
+                        ops = [rng.choice(ready)]
+                    pick = (p, ops)
+                    break
+                if pick is None:
+                    break
+                p, ops = pick
+                taken.add(id(p))
+                cpu = max(1, int(fc * rng.choice([0.1, 0.25, 0.5, 1.0])))
+                if overcommit and rng.random() < 0.5:
+                    ram = pool.max_ram_pool * rng.choice([0.25, 0.5, 1.0])
+                else:
+                    ram = fr * rng.choice([0.1, 0.25, 0.5, 1.0])
+                    if ram >= 1 and rng.random() < 0.5:
+                        ram = float(int(ram))
+                if not overcommit:
+                    # stay admissible under the executor's own arithmetic (sum of the batch in list order)
+                    tot = 0.0
+                    for a in asg:
+                        if a.pool_id == pool.pool_id:
+                            tot += a.ram
+                    while ram > 0 and tot + ram > pool.avail_ram_pool:
+                        ram *= 0.999
+                if ram <= 0:
+                    break
+                asg.append(Assignment(ops=ops, cpu=cpu, ram=ram, priority=p.priority, pool_id=pool.pool_id,
+                                      pipeline_id=p.pipeline_id))
+                fc -= cpu
+                if not overcommit:
+                    fr -= ram
+        return sus, asg
+
+    _random_policy_loaded = True
+
+
 def ensure_registered(algo):
     key = "verif:" + algo
     if key in _registered:
         return key
     if algo == TEMPLATE_NAME:
         ensure_template()
+    if algo == RANDOM_POLICY:
+        ensure_random_policy()
 
     @register_scheduler_init(key=key)
     def _init(s, _algo=algo):
